@@ -158,7 +158,7 @@ def cached_run_units(units, jobs, tier, seed):
                     pass
             r["cache"] = "computed:" + key
             res[u.name] = r
-    # keep the cache small: only the newest few keys stay; never the current one, never one that was used in the last hour
+    # keep the cache small: only the newest few keys stay; never the current one, never one that was used in the last half hour
     # (concurrent checks of other trees may be writing there)
     try:
         import shutil
@@ -168,7 +168,7 @@ def cached_run_units(units, jobs, tier, seed):
         keys = sorted(os.listdir(root), key=lambda d: os.path.getmtime(os.path.join(root, d)))
         for d in keys[:-4]:
             pth = os.path.join(root, d)
-            if d != key and _time.time() - os.path.getmtime(pth) > 3600:
+            if d != key and _time.time() - os.path.getmtime(pth) > 1800:
                 shutil.rmtree(pth, ignore_errors=True)
     except Exception:
         pass
